@@ -7,4 +7,9 @@ require (
 	pgregory.net/rapid v1.3.0
 )
 
+require (
+	golang.org/x/net v0.55.0 // indirect
+	golang.org/x/sys v0.45.0 // indirect
+)
+
 replace github.com/gopacket/gopacket => /repo
